@@ -4,7 +4,9 @@ package main
 
 import (
 	"fmt"
+	"go/ast"
 	"go/constant"
+	"go/token"
 	"go/types"
 	"strings"
 
@@ -47,7 +49,7 @@ func init() {
 		"(*golang.org/x/sync/errgroup.Group).Go": func(x *Exec, m *modSet, _ *ssa.Function) {
 			m.ghost["eg_err"] = true
 		},
-		"(*sync.Once).Do": func(x *Exec, m *modSet, _ *ssa.Function) { m.allHeaps = true },
+		"(*sync.Once).Do": func(x *Exec, m *modSet, _ *ssa.Function) {},
 	}
 	ifaceMods = map[string]func(x *Exec, m *modSet){}
 	contractBuiltins = map[string]func(x *Exec, env *CEnv, n *CCall) (*CV, error){}
@@ -229,9 +231,22 @@ func modelAtomicAdd(x *Exec, cs *callSite) *Val {
 }
 
 func modelOnceDo(x *Exec, cs *callSite) *Val {
-	// the function may or may not run; it is run by some goroutine exactly once. Its effects are havocked.
-	x.assumeNote("sync.Once.Do summarised as havoc (the once-function starts background goroutines)")
-	x.havocAll(cs.st, "once")
+	// the function may or may not run (now or earlier), and what it starts may run concurrently:
+	// everything it can modify is havocked
+	x.assumeNote("sync.Once.Do(f) summarised as havoc of everything f (and the goroutines it starts) may modify")
+	f := cs.args[1]
+	var fn *ssa.Function
+	switch {
+	case f.Clo != nil:
+		fn = f.Clo.Fn
+	case f.Fn != nil:
+		fn = f.Fn
+	}
+	if fn == nil {
+		x.havocAll(cs.st, "once")
+		return &Val{}
+	}
+	x.havocMods(cs.fr, cs.st, x.funcMods(fn), "once")
 	return &Val{}
 }
 
@@ -578,4 +593,76 @@ func init() {
 		return &Val{T: x.sc.Define("contains", t), Ty: types.Typ[types.Bool]}
 	}
 	delete(pureFuncs, "slices.Contains")
+}
+
+// Package-level tables: string slices initialised by a composite literal of
+// constants are read from the source on every run.
+func (w *World) stringTable(pkgPath, name string) ([]string, bool) {
+	for _, p := range w.pkgs {
+		if p.PkgPath != pkgPath {
+			continue
+		}
+		for _, f := range p.Syntax {
+			for _, d := range f.Decls {
+				gd, ok := d.(*ast.GenDecl)
+				if !ok || gd.Tok != token.VAR {
+					continue
+				}
+				for _, sp := range gd.Specs {
+					vs := sp.(*ast.ValueSpec)
+					for i, n := range vs.Names {
+						if n.Name != name || i >= len(vs.Values) {
+							continue
+						}
+						cl, ok := vs.Values[i].(*ast.CompositeLit)
+						if !ok {
+							return nil, false
+						}
+						var out []string
+						for _, e := range cl.Elts {
+							tv, ok := p.TypesInfo.Types[e]
+							if !ok || tv.Value == nil || tv.Value.Kind() != constant.String {
+								return nil, false
+							}
+							out = append(out, constant.StringVal(tv.Value))
+						}
+						return out, true
+					}
+				}
+			}
+		}
+	}
+	return nil, false
+}
+
+func init() {
+	// intable("name", x): x is one of the literals of the package-level table
+	contractBuiltins["intable"] = func(x *Exec, env *CEnv, n *CCall) (*CV, error) {
+		nm, ok := n.Args[0].(*CStr)
+		if !ok {
+			return nil, fmt.Errorf("intable: table name in quotes expected")
+		}
+		v, err := x.eval(env, n.Args[1])
+		if err != nil {
+			return nil, err
+		}
+		pkg := ""
+		if env.pkg != nil {
+			pkg = env.pkg.Path()
+		}
+		tbl, ok := x.w.stringTable(pkg, nm.V)
+		if !ok {
+			// tables of package glf are also used from other packages' contracts
+			tbl, ok = x.w.stringTable(repoMod+"/shovel/glf", nm.V)
+		}
+		if !ok {
+			return nil, fmt.Errorf("intable: no constant string table %q", nm.V)
+		}
+		vt := x.cvTerm(v, nil)
+		var ds []Term
+		for _, s := range tbl {
+			ds = append(ds, Eq(vt, x.strLit(s)))
+		}
+		return &CV{T: Or(ds...), Ty: types.Typ[types.Bool]}, nil
+	}
 }
